@@ -2,7 +2,7 @@
    initialize, get_workload, process_one_node, maybe_update_best, enqueue_cutset, abort_search, set_primal,
    maximize and the accessors. The fringe is either the faithful NoDupFringe model or an abstract
    priority queue standing for SimpleFringe (binary_heap_plus). *)
-Require Import DDO.Base DDO.Fringe DDO.DP DDO.Cache DDO.Dom DDO.Mdd.
+Require Import DDO.Base DDO.Fringe DDO.FringeProofs DDO.Fringe2 DDO.DP DDO.Cache DDO.Dom DDO.Mdd.
 Open Scope Z_scope.
 
 Section Solver.
@@ -27,7 +27,7 @@ Section Solver.
 
   Record sstate := {
     s_simple : list (@subproblem St);    (* SimpleFringe content (abstract priority queue) *)
-    s_nodup : @nodup St;
+    s_nodup : @nodup (St * nat);         (* NoDupFringe, keyed by (state, depth) *)
     s_explored : nat;
     s_open : list nat;                   (* open_by_layer *)
     s_fal : nat;                         (* first_active_layer *)
@@ -62,7 +62,7 @@ Section Solver.
 
   Definition fr_push (s : sstate) (n : @subproblem St) : sstate :=
     if sc_nodup cfg then
-      match nd_push st_eqb spcmp (s_nodup s) n with
+      match k_push st_eqb (sc_ranking cfg) (s_nodup s) n with
       | Some f => upd_s s (s_simple s) f (s_explored s) (s_open s) (s_fal s) (s_lb s) (s_ub s) (s_sol s) (s_abort s)
                         (s_cache s) (s_dom s) (s_polls s) (s_crash s) (s_tie s) (s_compiles s)
       | None => crashed s
@@ -83,7 +83,7 @@ Section Solver.
 
   Definition fr_pop (s : sstate) : sstate * option (@subproblem St) :=
     if sc_nodup cfg then
-      match nd_pop st_eqb spcmp (s_nodup s) with
+      match k_pop st_eqb (sc_ranking cfg) (s_nodup s) with
       | Some (f, r) => (upd_s s (s_simple s) f (s_explored s) (s_open s) (s_fal s) (s_lb s) (s_ub s) (s_sol s) (s_abort s)
                               (s_cache s) (s_dom s) (s_polls s) (s_crash s) (s_tie s) (s_compiles s), r)
       | None => (crashed s, None)
